@@ -460,3 +460,82 @@ Qed.
 Lemma expand_default_template : forall stem date,
   expand "%(jugfile)s.jugdata" stem date = FmtOk (stem ++ ".jugdata").
 Proof. intros. reflexivity. Qed.
+
+(* ------------------------------------------------------------------ discovery of the configuration file *)
+Lemma first_existing_skip_absent : forall before rest,
+  (forall x, In x before -> x = CAbsent) -> first_existing (before ++ rest) = first_existing rest.
+Proof.
+  intros before rest H. induction before as [|x before IH]; simpl; [reflexivity|].
+  rewrite (H x (or_introl eq_refl)). simpl. apply IH. intros y Hy. apply H. right. exact Hy.
+Qed.
+
+Lemma first_existing_here : forall x rest, x <> CAbsent -> first_existing (x :: rest) = Some x.
+Proof. intros x rest H. simpl. destruct x; [congruence|reflexivity|reflexivity]. Qed.
+
+(* the candidate that is read: the first one that exists, whatever follows it *)
+Lemma first_existing_is_first : forall before x after,
+  (forall y, In y before -> y = CAbsent) -> x <> CAbsent ->
+  first_existing (before ++ x :: after) = Some x.
+Proof.
+  intros before x after Hb Hx. rewrite (first_existing_skip_absent before (x :: after) Hb).
+  exact (first_existing_here x after Hx).
+Qed.
+
+Lemma first_existing_none : forall cands,
+  (forall y, In y cands -> y = CAbsent) -> first_existing cands = None.
+Proof.
+  intros cands H. rewrite <- (app_nil_r cands). rewrite (first_existing_skip_absent cands [] H). reflexivity.
+Qed.
+
+Lemma discovered_config_first : forall before x after,
+  (forall y, In y before -> y = CAbsent) -> x <> CAbsent ->
+  discovered_config (before ++ x :: after) = match x with CFile cfg => cfg | _ => [] end.
+Proof.
+  intros before x after Hb Hx. unfold discovered_config.
+  rewrite (first_existing_is_first before x after Hb Hx). reflexivity.
+Qed.
+
+(* a lower-priority file never influences anything once a higher-priority candidate exists *)
+Theorem run_discovered_ignores_lower : forall T c before x after after' date keys,
+  (forall y, In y before -> y = CAbsent) -> x <> CAbsent ->
+  run_discovered T c (before ++ x :: after) date keys = run_discovered T c (before ++ x :: after') date keys.
+Proof.
+  intros T c before x after after' date keys Hb Hx. unfold run_discovered.
+  rewrite (discovered_config_first before x after Hb Hx), (discovered_config_first before x after' Hb Hx).
+  reflexivity.
+Qed.
+
+Theorem run_discovered_first_file : forall T c before cfg after date keys,
+  (forall y, In y before -> y = CAbsent) ->
+  run_discovered T c (before ++ CFile cfg :: after) date keys = run T c cfg date keys.
+Proof.
+  intros T c before cfg after date keys Hb. unfold run_discovered.
+  rewrite (discovered_config_first before (CFile cfg) after Hb); [reflexivity|discriminate].
+Qed.
+
+Theorem run_discovered_nothing : forall T c cands date keys,
+  (forall y, In y cands -> y = CAbsent) -> run_discovered T c cands date keys = run T c [] date keys.
+Proof.
+  intros T c cands date keys H. unfold run_discovered, discovered_config.
+  rewrite (first_existing_none cands H). reflexivity.
+Qed.
+
+(* the same for home directories: two homes that agree on the candidate paths up to and including
+   the first one that exists give every command the same options, whatever else they hold *)
+Theorem run_home_ignores_lower : forall T c higher p lower h h' date keys,
+  (forall q, In q higher -> home_at h q = CAbsent) ->
+  home_at h p <> CAbsent ->
+  (forall q, In q (higher ++ [p]) -> home_at h' q = home_at h q) ->
+  run_home T c (higher ++ p :: lower) h date keys = run_home T c (higher ++ p :: lower) h' date keys.
+Proof.
+  intros T c higher p lower h h' date keys Hh Hp Hagree. unfold run_home, candidates_in.
+  rewrite !map_app. simpl.
+  assert (Hb : forall y, In y (map (home_at h) higher) -> y = CAbsent).
+  { intros y Hy. apply in_map_iff in Hy. destruct Hy as [q [E Hq]]. subst y. exact (Hh q Hq). }
+  assert (E1 : map (home_at h') higher = map (home_at h) higher).
+  { apply map_ext_in. intros q Hq. apply Hagree. apply in_or_app. left. exact Hq. }
+  assert (E2 : home_at h' p = home_at h p).
+  { apply Hagree. apply in_or_app. right. left. reflexivity. }
+  rewrite E1, E2.
+  exact (run_discovered_ignores_lower T c _ (home_at h p) _ _ date keys Hb Hp).
+Qed.
